@@ -761,7 +761,9 @@ def stub_graphviz(fe_path):
 
     dawgie.context.fe_path = fe_path
     dawgie.context.site_path = ''
-    real = pydot.Dot.write
+    if not hasattr(pydot.Dot, '_verif_real_write'):  # survive being called twice in one process
+        pydot.Dot._verif_real_write = pydot.Dot.write
+    real = pydot.Dot._verif_real_write
 
     def fake(self, path, prog=None, format='raw', encoding=None):  # pylint: disable=redefined-builtin
         with open(path, 'w', encoding='utf-8') as fh:
